@@ -278,7 +278,9 @@ impl<'a, 'pat, P: Scan<'a>> Exec<'pat, P> {
 					}
 				},
 				pat::Atom::Aligned(align) => {
-					if !self.cursor.aligned_to(1 << align as u32) {
+					// Alignments of 2^32 and up can only be satisfied by a zero cursor
+					let mask = 1u32.checked_shl(align as u32).map_or(!0, |x| x - 1);
+					if self.cursor & mask != 0 {
 						return false;
 					}
 				},
